@@ -157,7 +157,7 @@ def o75(ctx):
     if not wh:
         raise Unsupported("candidate selection np.where(scores > threshold) not found", fn)
     c = to_term(wh[0].args[0])
-    if c.op not in ("lt", "le") or c.args[1] != SC or c.args[0] != sym("thr"):
+    if c.op != "lt" or c.args[1] != SC or c.args[0] != sym("thr"):  # strictly above: a voxel equal to the threshold is not a candidate
         ctx.finding(Q2, wh[0].node, "candidates must be the voxels whose score exceeds the threshold (score > threshold)", wh[0].node, m,
                     predicate=tm.show(c)[:120])
     # descending processing order
